@@ -13,9 +13,9 @@ use fcv_harness::{arg_usize, json_str, Rng};
 
 const TOKENS: &[&str] = &[
     "a", "b", ".", "-", "+", "(", "ż", "\\*", "?", "*", "**", "/", "[ab]", "[!a]", "{a,b/}", "@(a|b)", "?(a)",
-    "+(ab)", "*(a|.)", "{a|,b}", "@(a,|b)",
+    "+(ab)", "*(a|.)", "{a|,b}", "@(a,|b)", "$",
 ];
-const COMPONENTS: &[&str] = &["a", "b", ".a", "-", "ż", "ab", "a.b", "a\nb", "a|"];
+const COMPONENTS: &[&str] = &["a", "b", ".a", "-", "ż", "ab", "a.b", "a\nb", "a|", "a$"];
 
 struct Stats {
     globs: AtomicU64,
@@ -143,6 +143,19 @@ impl Ctx<'_> {
         let mut v = self.violations.lock().unwrap();
         if v.iter().filter(|x| x.signature == signature).count() < 5 {
             v.push(Violation { signature, glob: glob.to_string(), path: path.to_string(), detail });
+        }
+    }
+
+    /// A panic anywhere in fclones' pattern code (compilation, matching, pruning) is a violation, not a harness error.
+    fn guarded<F: Fn(&Self, &str)>(&self, glob: &str, f: F) {
+        let r = std::panic::catch_unwind(std::panic::AssertUnwindSafe(|| f(self, glob)));
+        if let Err(e) = r {
+            let msg = e
+                .downcast_ref::<String>()
+                .cloned()
+                .or_else(|| e.downcast_ref::<&str>().map(|s| s.to_string()))
+                .unwrap_or_else(|| "panic".to_string());
+            self.report_k("panic", glob, "", format!("fclones panicked while compiling or matching this documented glob: {}", msg));
         }
     }
 
@@ -347,6 +360,7 @@ fn nth_glob(mut idx: u64, len: usize) -> String {
 }
 
 fn main() {
+    std::panic::set_hook(Box::new(|_| {})); // panics are caught and reported as violations, not printed one by one
     let max_tokens = arg_usize("--max-tokens", 3);
     let random_globs = arg_usize("--random", 2000);
     let seed = arg_usize("--seed", 1) as u64;
@@ -412,12 +426,12 @@ fn main() {
                     if i >= work.len() {
                         break;
                     }
-                    ctx.check_glob(&work[i]);
+                    ctx.guarded(&work[i], |c, g| c.check_glob(g));
                     // a pseudo-random 1/8 of the globs (1/2 of those with a non-ASCII literal) also go through the
                     // --ignore-case checks; `i % 7` would alias with the enumeration order of the token sequences
                     let h = (i as u64 ^ seed).wrapping_mul(0x9E3779B97F4A7C15) >> 61;
                     if h == 0 || (!work[i].is_ascii() && h < 4) {
-                        ctx.check_ci(&work[i]);
+                        ctx.guarded(&work[i], |c, g| c.check_ci(g));
                     }
                 }
             });
